@@ -223,3 +223,47 @@ def msd_atom_major(ctx, case):
 
 MSD_CASES = [(n, r) for n in (1, 2, 3, 4, 5, 6, 7, 8, 9) for r in (False,)] + [(7, True)]
 contract("C06", "mdtraj/rmsd/src/theobald_rmsd_sse.h", "msd_atom_major", cases=MSD_CASES, lang="c", replay="rmsd", covers=["returned"], max_paths=50)(msd_atom_major)
+
+
+def center_and_trace(ctx, case):
+    """inplace_center_and_trace_atom_major (center_sse.h), n atoms concrete per case (every remainder modulo 4), 2 frames, symbolic
+    coordinates: every frame is shifted by ITS OWN mean position (computed from that frame only), the stored trace is the sum of the
+    squared centred coordinates of that frame, nothing else is written.  Exact rational-function identities (the float cast of the
+    mean is the identity over the reals)."""
+    import sympy as sp
+
+    n = case
+    F = 2
+    c = ctx.load_c("mdtraj/rmsd/src/center.cpp", ["inplace_center_and_trace_atom_major", "aos_deinterleaved_loadu", "aos_interleaved_storeu"], **INC)
+    X, T = Region("coords"), Region("traces")
+    X.mem0, T.mem0 = X.mem, T.mem
+    out = ctx.ccall("inplace_center_and_trace_atom_major", Ptr(X, 0), Ptr(T, 0), F, n)
+    ctx.ensure("returns-normally", out.exc is None)
+    if out.exc is not None:
+        return
+    ctx.cover("returned")
+    env = {}
+    x0 = lambda k, a, d: polyid.to_sympy(z3.Select(X.mem0, 3 * (k * n + a) + d), env)
+    ok_c, ok_t = True, True
+    for k in range(F):
+        mean = [sum(x0(k, a, d) for a in range(n)) / n for d in range(3)]
+        tr = 0
+        for a in range(n):
+            for d in range(3):
+                got = polyid.to_sympy(z3.simplify(z3.Select(X.mem, 3 * (k * n + a) + d)), env)
+                want = x0(k, a, d) - mean[d]
+                tr += want ** 2
+                if sp.cancel(sp.together(got - want)) != 0:
+                    ok_c = False
+        got_t = polyid.to_sympy(z3.simplify(z3.Select(T.mem, k)), env)
+        if sp.cancel(sp.together(got_t - tr)) != 0:
+            ok_t = False
+    ctx.ensure("coordinates'=coordinates-mean-of-the-same-frame", ok_c, kind="lemma-poly")
+    ctx.ensure("traces[k]=sum-of-squared-centred-coordinates-of-frame-k", ok_t, kind="lemma-poly")
+    idx_ok = all(z3.is_int_value(z3.simplify(w[0])) and 0 <= z3.simplify(w[0]).as_long() < 3 * n * F for w in X.writes) and \
+        all(z3.is_int_value(z3.simplify(w[0])) and 0 <= z3.simplify(w[0]).as_long() < F for w in T.writes)
+    ctx.ensure("writes-stay-inside-the-two-arrays", idx_ok)
+    ctx.ensure("reads-stay-inside-the-coordinate-array", all(z3.is_int_value(z3.simplify(t)) and 0 <= z3.simplify(t).as_long() < 3 * n * F for t in X.reads))
+
+
+contract("C06", "mdtraj/rmsd/src/center_sse.h", "inplace_center_and_trace_atom_major", cases=[1, 2, 3, 4, 5, 6, 7, 8, 9], lang="c", replay="rmsd", covers=["returned"], max_paths=50)(center_and_trace)
